@@ -2512,6 +2512,7 @@ theorem sites_match_model :
     AITB.Gen.C01.peLoopOrder = ["init2tol", "useTolSmall", "while", "save", "discount", "computeQ", "dot", "absmax"] ∧
     AITB.Gen.C01.lpSites = ["lpOfS", "resizeSA", "objUniform", "minimise", "loopS", "unbounded", "loopA", "rowEigen", "loopS1", "rowGeneric", "plusOne", "GE", "solveS", "throwIfNone", "assembleQ", "argmaxRows"] ∧
     AITB.Gen.C01.qPolicyHoldsReference = true ∧
+    AITB.Gen.C01.rewardTableSites = ["viIrSelect", "lpIrSelect", "peCtorCachesIr", "pePolicyOnce", "peEigenR", "peGenericIr", "peDotAllStates"] ∧
     AITB.Gen.C01.bellmanInplaceIsMaxCoeffOverActions = true ∧
     AITB.Gen.C01.computeQSites = ["irGeneric", "qEigen", "qGeneric"] ∧
     AITB.Gen.C01.greedySites = (if AITB.Gen.C01.greedyTrueMaxFirst then ["init", "trueMax", "count0", "countTies", "fillFrom0", "tieGeneral2", "recip", "zero"]
